@@ -36,7 +36,7 @@ class HandleNegative(Contract):
     def requires(self, L, A, G):
         r, c, ln, stt = A['first_dimension'], A['second_dimension'], A['lengths'], A['starts']
         n = L.len(ln)
-        return [('paired-indices', L.And(L.len(r) == L.len(c), L.len(r) >= 2)), ('one-start-per-row', L.And(L.len(stt) == n, n >= 1)),
+        return [('paired-indices', L.And(L.len(r) == L.len(c), L.len(r) >= 1)), ('one-start-per-row', L.And(L.len(stt) == n, n >= 1)),
                 ('rows-addressable', L.forall(0, L.len(r), lambda k: L.And(r[k] >= -n, r[k] < n))),
                 ('lengths-positive', L.forall(0, n, lambda t: ln[t] >= 1))]
 
@@ -85,10 +85,12 @@ class ConvertFrom2d(Contract):
     def requires(self, L, A, G):
         (r, c), ln, stt = A['iis_ragged'], A['lengths'], A['starts']
         n = L.len(ln)
-        return [('paired-indices', L.And(L.len(r) == L.len(c), L.len(r) >= 2)), ('one-start-per-row', L.And(L.len(stt) == n, n >= 1)),
+        return [('paired-indices', L.And(L.len(r) == L.len(c), L.len(r) >= 1)), ('one-start-per-row', L.And(L.len(stt) == n, n >= 1)),
                 ('rows-addressable', L.forall(0, L.len(r), lambda k: L.And(r[k] >= -n, r[k] < n))),
                 ('lengths-positive', L.forall(0, n, lambda t: ln[t] >= 1)),
-                ('starts-are-prefix-sums', L.forall(0, n, lambda t: stt[t] == G['PS'](t)))]
+                ('starts-are-prefix-sums', L.forall(0, n, lambda t: stt[t] == G['PS'](t))),
+                # the contract describes the checking mode only (what every read and write of the class relies on)
+                ('out-of-row-check-requested', A.get('error_check', True) is True)]
 
     def raises(self, L, A, G):
         (r, c), ln = A['iis_ragged'], A['lengths']
@@ -105,13 +107,14 @@ class ConvertFrom2d(Contract):
                 ('flat-index-is-row-start-plus-column', L.forall(0, m, lambda k: flat[k] == stt[rp(k)] + cp(k))),
                 ('flat-index-inside-its-row', L.forall(0, m, lambda k: L.And(G['PS'](rp(k)) <= flat[k], flat[k] < G['PS'](rp(k) + 1))))]
 
+    def result(self, e, st, args):
+        from pyvc.engine import Tup
+        r = e.deref(st, e.deref(st, args['iis_ragged']).items[0])
+        return Tup([e.fresh_arr(st, 'flat', 'int', (r.shape[0],))])
+
     def pins(self):
         import z3
         return [[z3.Int('M') == 2, z3.Int('M2') == 2, z3.Int('N') == a, z3.Int('N2') == a] for a in (1, 2)]
-
-
-def registry():
-    return {c.key: c for c in (HandleNegative(), ConvertFrom2d())}
 
 
 class SliceToList(Contract):
@@ -217,7 +220,16 @@ class IisFromSlices(Contract):
         return [('one-length-per-selected-row', L.And(L.len(newl) == m, L.forall(0, m, lambda p: newl[p] == cnt(p)))),
                 ('as-many-index-pairs-as-selected-cells', L.And(L.len(iis_r) == OFF(m), L.len(iis_c) == OFF(m))),
                 ('row-index-over-each-block', L.forall_dep(0, m, cnt, lambda p, j: iis_r[OFF(p) + j] == rows[p])),
-                ('column-index-follows-python-slicing', L.forall_dep(0, m, cnt, lambda p, j: iis_c[OFF(p) + j] == S(p) + L.mul(j, sp)))]
+                ('column-index-follows-python-slicing', L.forall_dep(0, m, cnt, lambda p, j: iis_c[OFF(p) + j] == S(p) + L.mul(j, sp)))] + \
+               ([('every-pair-addresses-a-cell-of-its-row', L.forall(0, OFF(m), lambda k: L.And(iis_r[k] >= 0, iis_r[k] < L.len(ln), iis_c[k] >= 0, iis_c[k] < ln[iis_r[k]])))]
+                if s.step is None else [])
+
+    def result(self, e, st, args):
+        from pyvc.engine import Tup
+        rows = e.deref(st, args['first_dimension_iis'])
+        tot = e.fresh('n_cells', 'int')
+        st.pc.append(tot >= 0)
+        return Tup([Tup([e.fresh_arr(st, 'iis_r', 'int', (tot,)), e.fresh_arr(st, 'iis_c', 'int', (tot,))]), e.fresh_arr(st, 'new_lengths', 'int', (rows.shape[0],))])
 
     @property
     def cuts(self):
@@ -322,6 +334,10 @@ class Starts(Contract):
         n = L.len(ln)
         return [('one-start-per-row', L.len(R) == n), ('starts-are-prefix-sums', L.forall(0, n, lambda t: R[t] == G['PS'](t)))]
 
+    def result(self, e, st, args):
+        ln = e.deref(st, e.deref(st, args['self']).fields['lengths'])
+        return e.fresh_arr(st, 'starts', 'int', (ln.shape[0],))
+
     def exit_lemmas(self, L, A, R, G, V):
         if not L.sym:
             return []
@@ -336,3 +352,133 @@ class Starts(Contract):
 def registry_starts():
     s = Starts()
     return {s.key: s}
+
+
+# ------------------------------------------------------------------------------------------------------------------ the class
+def _ra_self(e, st):
+    """a RaggedArray as the executor sees it: flat data + lengths (the object-array view `_array` is not modelled)"""
+    import z3
+    from pyvc.logic import Arr
+    from pyvc.engine import RecV
+    return e.new_obj(st, RecV('RaggedArray', {'_data': e.new_obj(st, Arr(z3.Array('data', z3.IntSort(), z3.RealSort()), (z3.Int('ND'),), 'real')),
+                                              'lengths': _arr(e, st, 'lengths', 'N')}))
+
+
+class RaggedInit(Contract):
+    """ASSUMED contract of the constructor in its (flat data, lengths) form, used where __getitem__ builds its result
+    (the constructor itself is only exercised by the bounded driver): the new object holds exactly that data and those lengths."""
+    key = F + 'RaggedArray.__init__'
+
+    def result(self, e, st, args):
+        from pyvc.engine import RecV
+        from pyvc.logic import Arr
+        a, ln = e.deref(st, args['array']), e.deref(st, args['lengths'])
+        if not (isinstance(a, Arr) and isinstance(ln, Arr)):
+            from pyvc.engine import Unsupported
+            raise Unsupported('RaggedArray(...) form other than (flat data, lengths)')
+        return e.new_obj(st, RecV('RaggedArray', {'_data': e.new_obj(st, Arr(a.term, a.shape, a.kind, a.init, {})),
+                                                  'lengths': e.new_obj(st, Arr(ln.term, ln.shape, ln.kind, ln.init, {}))}))
+
+
+class GetItem(Contract):
+    """RaggedArray.__getitem__ for two-dimensional index expressions, stated against the list of rows
+    row(t)[j] := _data[PS(t) + j]  (PS = prefix sums of the lengths; representation invariant len(_data) = PS(n)):
+
+      form 'paired'      a[(r, c)] with index arrays        -> R[k] = row(r'_k)[c'_k]; IndexError iff an element lies outside its row
+      form 'rows-slice'  a[rows, lo:hi] with a row array    -> a ragged array whose p-th row is row(rows[p])[lo:hi] (Python slicing),
+                                                               i.e. lengths[p] = number of selected positions, data in row order
+    """
+    key = F + 'RaggedArray.__getitem__'
+    prune_paths = True
+
+    def __init__(self, form='paired', start_none=False, stop_none=False, exclude=()):
+        self.form, self.none, self.exclude = form, (start_none, stop_none, True), set(exclude)
+        self.abstract_nonlinear = False
+
+    def params(self, e, st):
+        import z3
+        from pyvc.engine import Tup, Slice
+        if self.form == 'paired':
+            iis = Tup([_arr(e, st, 'r', 'M'), _arr(e, st, 'c', 'M2')])
+        else:
+            lo, hi = [None if isnone else z3.Int(nm) for nm, isnone in zip(('sl_start', 'sl_stop'), self.none[:2])]
+            iis = Tup([_arr(e, st, 'rows', 'M'), Slice(lo, hi, None)])
+        return {'self': _ra_self(e, st), 'iis': iis}
+
+    def ghost(self, L, A):
+        ln = A['self'].lengths
+        PS, ax = prefix_sums(L, ln, 'PSG')
+        G = {'PS': PS}
+        if self.form != 'paired':
+            rows, s = A['iis']
+            m = L.len(rows)
+            cnt = lambda p: L.alen(*py_bounds(L, s, ln[rows[p]]), 1)
+            if L.sym:
+                OFF = L.func('OFF', 'int', 'int')      # the same ghost (same recurrence over the same rows / lengths / slice) as the callee _get_iis_from_slices uses
+                ax = ax + [OFF(0) == 0, L.forall(0, m, lambda p: OFF(p + 1) == OFF(p) + cnt(p))]
+                G['OFF'] = OFF
+            else:
+                acc = [0]
+                for p in range(int(m)):
+                    acc.append(acc[-1] + cnt(p))
+                G['OFF'] = lambda p: acc[int(p)]
+            G['cnt'] = cnt
+        return G, ax
+
+    def lemmas(self, L, A, G):
+        if not L.sym:
+            return []
+        n, PS = L.len(A['self'].lengths), G['PS']
+        out = [dict(name='prefix-sums-below-total', lo=0, hi=n, down=True, P=lambda t: PS(t) <= PS(n)),
+               dict(name='prefix-sums-nonneg', lo=0, hi=n, down=False, P=lambda t: PS(t) >= 0)]
+        if self.form != 'paired':
+            m = L.len(A['iis'][0])
+            out.append(dict(name='every-selected-row-contributes', lo=0, hi=m, down=False, P=lambda t: G['OFF'](t) >= t))
+            out.append(dict(name='block-offsets-below-total', lo=0, hi=m, down=True, P=lambda t: G['OFF'](t) <= G['OFF'](m)))
+        return out
+
+    def requires(self, L, A, G):
+        s = A['self']
+        ln, n = s.lengths, L.len(s.lengths)
+        out = [('some-rows', n >= 1), ('lengths-positive', L.forall(0, n, lambda t: ln[t] >= 1)),
+               ('flat-data-holds-all-rows', L.len(s._data) == G['PS'](n))]
+        if self.form == 'paired':
+            r, c = A['iis']
+            out += [('paired-indices', L.And(L.len(r) == L.len(c), L.len(r) >= 1)), ('rows-addressable', L.forall(0, L.len(r), lambda k: L.And(r[k] >= -n, r[k] < n)))]
+        else:
+            rows, sl = A['iis']
+            out += [('rows-exist', L.And(L.len(rows) >= 1, L.forall(0, L.len(rows), lambda p: L.And(rows[p] >= 0, rows[p] < n)))),
+                    ('outside-known-finding-class:no-selected-row-comes-out-empty', L.forall(0, L.len(rows), lambda p: G['cnt'](p) >= 1))]
+        return out
+
+    def raises(self, L, A, G):
+        if self.form != 'paired':
+            return {}
+        (r, c), ln = A['iis'], A['self'].lengths
+        n = L.len(ln)
+        return {'IndexError': L.exists(0, L.len(r), lambda k: L.Or(c[k] < -ln[norm_row(L, r[k], n)], c[k] >= ln[norm_row(L, r[k], n)]))}
+
+    def ensures(self, L, A, N, R, G, V):
+        s = A['self']
+        ln, data, n, PS = s.lengths, s._data, L.len(s.lengths), G['PS']
+        if self.form == 'paired':
+            r, c = A['iis']
+            rp = lambda k: norm_row(L, r[k], n)
+            cp = lambda k: L.ite(c[k] < 0, c[k] + ln[rp(k)], c[k])
+            return [('one-value-per-pair', L.len(R) == L.len(r)),
+                    ('value-is-the-element-of-its-row', L.forall(0, L.len(r), lambda k: R[k] == data[PS(rp(k)) + cp(k)]))]
+        rows, sl = A['iis']
+        m, OFF, cnt = L.len(rows), G['OFF'], G['cnt']
+        S = lambda p: py_bounds(L, sl, ln[rows[p]])[0]
+        return [('one-row-per-selected-row', L.And(L.len(R.lengths) == m, L.forall(0, m, lambda p: R.lengths[p] == cnt(p)))),
+                ('data-holds-the-selected-cells', L.len(R._data) == OFF(m)),
+                ('row-p-is-the-python-slice-of-the-selected-row', L.forall_dep(0, m, cnt, lambda p, j: R._data[OFF(p) + j] == data[PS(rows[p]) + S(p) + j]))]
+
+    def pins(self):
+        import z3
+        return [[z3.Int('N') == 2, z3.Int('M') == 1, z3.Int('M2') == 1, z3.Int('ND') == 2], [z3.Int('N') == 2, z3.Int('M') == 2, z3.Int('M2') == 2, z3.Int('ND') == 3]]
+
+
+def registry_getitem(form='paired', start_none=False, stop_none=False, exclude=()):
+    cs = [GetItem(form, start_none, stop_none, exclude), HandleNegative(), ConvertFrom2d(), Starts(), RaggedInit(), IisFromSlices(start_none, stop_none, True, exclude), IisFromList(), SliceToList()]
+    return {c.key: c for c in cs}
